@@ -107,16 +107,40 @@ func Extract(in *Instance) *X {
 	}
 	for _, st := range outer.List {
 		as, ok := st.(*ast.AssignStmt)
-		if !ok || as.Tok != token.DEFINE || len(as.Lhs) != 1 || len(as.Rhs) != 1 {
+		if !ok {
 			break
 		}
-		id, ok := as.Lhs[0].(*ast.Ident)
-		if !ok || !hoistedRe.MatchString(id.Name) {
+		if as.Tok == token.ASSIGN {
+			// `_ = _L_C // possibly unused` lines of modifier mode
+			blank := true
+			for _, l := range as.Lhs {
+				if id, ok := l.(*ast.Ident); !ok || id.Name != "_" {
+					blank = false
+				}
+			}
+			if blank {
+				continue
+			}
+			break
+		}
+		if as.Tok != token.DEFINE || len(as.Rhs) != 1 {
+			break
+		}
+		allHoisted := true
+		for _, l := range as.Lhs {
+			if id, ok := l.(*ast.Ident); !ok || !hoistedRe.MatchString(id.Name) {
+				allHoisted = false
+			}
+		}
+		if !allHoisted {
 			break
 		}
 		x.Prologue = append(x.Prologue, as)
-		if o := info.Defs[id]; o != nil {
-			x.Hoisted[o] = id.Name
+		for _, l := range as.Lhs {
+			id := l.(*ast.Ident)
+			if o := info.Defs[id]; o != nil {
+				x.Hoisted[o] = id.Name
+			}
 		}
 	}
 	// ctx := <hoisted>
